@@ -13,7 +13,11 @@
        volatile part;
      - directory operations (create, link, unlink, rename) are atomic and ordered
        with the data (the name of an fsynced file survives a crash);
-     - open(O_CREAT|O_EXCL) and link(2) fail with EEXIST when the name exists.
+     - open(O_CREAT|O_EXCL) and link(2) fail with EEXIST when the name exists;
+     - any write / fsync / close / link / unlink / open may fail with another error
+       (EIO, ENOSPC, EDQUOT, EMFILE, ...): a failed call has no effect ([OFail]); in
+       particular a failed fsync makes nothing durable, and a failed write may have written
+       a part of its bytes before (recorded as an ordinary [OWrite] in front of it).
    No proofs here. *)
 From Coq Require Import List ZArith NArith Bool.
 From NSQV Require Import model.Judge.
@@ -62,10 +66,28 @@ Fixpoint flat (cs : list chunk) : bytes :=
 Definition content (f : file) : list chunk := f_dur f ++ f_vol f.
 Definition fsize (f : file) : Z := Z.of_nat (length (flat (content f))).
 
+(* The places of the logger's write path where a system call can fail with an error other
+   than EEXIST.  [FGzClose] is a write(2) issued by gzipWriter.Close() (the rest of the
+   compressed data and the member trailer), [FWrite] a write(2) issued by the Write of a
+   message body or newline (in gzip mode: the member header or a full compressor block). *)
+Inductive fkind := FWrite | FGzClose | FFsync | FClose | FLink | FUnlink | FOpen.
+
+Definition fkind_eqb (a b : fkind) : bool :=
+  match a, b with
+  | FWrite, FWrite | FGzClose, FGzClose | FFsync, FFsync | FClose, FClose
+  | FLink, FLink | FUnlink, FUnlink | FOpen, FOpen => true
+  | _, _ => false
+  end.
+
+(* the system call that fails there *)
+Definition sys_of (w : fkind) : fkind := match w with FGzClose => FWrite | x => x end.
+
 (* The operations.  [OCreate]: openat(O_WRONLY|O_CREAT [|O_EXCL] [|O_APPEND] [|O_TRUNC]),
    [ok = false] is EEXIST.  [OLink]: link(2), [ok = false] is EEXIST.  [ORename] is
    rename(2) (replaces the destination); the logger never uses it, it is here so that an
-   observed trace containing it can be judged. *)
+   observed trace containing it can be judged.  [OFail w k]: the system call [w] (never
+   [FGzClose]: that is a write) on file [k] (link: the source) failed with an error other
+   than EEXIST; no effect. *)
 Inductive op :=
 | OCreate (k : key) (excl append trunc ok : bool)
 | OWrite (k : key) (c : chunk)
@@ -76,7 +98,8 @@ Inductive op :=
 | OUnlink (k : key)
 | ORename (src dst : key)
 | OFin (m : msg)
-| OExit (code : N).
+| OExit (code : N)
+| OFail (w : fkind) (k : key).
 
 Definition append_vol (fs : fsT) (k : key) (cs : list chunk) : fsT :=
   match lookup fs k with
@@ -116,6 +139,7 @@ Definition apply_op (fs : fsT) (o : op) : fsT :=
       end
   | OFin _ => fs
   | OExit _ => fs
+  | OFail _ _ => fs
   end.
 
 Fixpoint replay (fs : fsT) (tr : list op) : fsT :=
